@@ -9,6 +9,8 @@ C28 — helper lemmas.
   §6  soundness of the specification (`mem_segInter3_iff'`): points of the result = common points
   §7  symmetry (through "a well-formed result is determined by its point set"), 2-D via z = 0
   §8  zero-length segments; the assertion `isect_1 ≈ isect_2` that the model drops
+  §9  the squared-form rewrites proved over ℝ with `Real.sqrt`; `seg2dSqrt` (sqrt form of the code) = `seg2d`
+  §10 the order of the two returned columns (3-D: ascending in the working coordinate)
 -/
 import Mathlib.Tactic.Ring
 import Mathlib.Tactic.Linarith
@@ -19,6 +21,7 @@ import Mathlib.Tactic.SplitIfs
 import Mathlib.Algebra.Order.Field.Rat
 import Mathlib.Order.Lattice
 import Mathlib.Order.Monotone.Basic
+import Mathlib.Analysis.Real.Sqrt
 import PorepyVerif.C28.Model
 
 namespace PorepyVerif.C28
@@ -1544,5 +1547,221 @@ theorem isect_agree (ax ay d1x d1y d2x d2y dsx dsy : Rat) (h : d1x * (-d2y) - d1
       = (ay + dsy) + (d1x * dsy - d1y * dsx) / (d1x * (-d2y) - d1y * (-d2x)) * d2y := by
   generalize hD : d1x * (-d2y) - d1y * (-d2x) = D at h
   constructor <;> field_simp <;> rw [← hD] <;> ring
+
+/-! ## §9  The squared-form rewrites: the sqrt comparisons of `segments_2d` over ℝ -/
+
+/-- `|a| < tol·√x·√y ⇔ a² < tol²·x·y`  (test "lines are parallel": `abs(discr) < tol*length_1*length_2`) -/
+theorem abs_lt_tol_sqrt_sqrt_iff (a tol x y : ℝ) (ht : 0 ≤ tol) (hx : 0 ≤ x) (hy : 0 ≤ y) :
+    |a| < tol * Real.sqrt x * Real.sqrt y ↔ a * a < tol * tol * x * y := by
+  have hr : 0 ≤ tol * Real.sqrt x * Real.sqrt y :=
+    mul_nonneg (mul_nonneg ht (Real.sqrt_nonneg x)) (Real.sqrt_nonneg y)
+  have hsq : (tol * Real.sqrt x * Real.sqrt y) ^ 2 = tol * tol * x * y := by
+    have h1 := Real.mul_self_sqrt hx
+    have h2 := Real.mul_self_sqrt hy
+    calc (tol * Real.sqrt x * Real.sqrt y) ^ 2
+        = tol * tol * (Real.sqrt x * Real.sqrt x) * (Real.sqrt y * Real.sqrt y) := by ring
+      _ = tol * tol * x * y := by rw [h1, h2]
+  rw [← hsq, show a * a = a ^ 2 by ring, sq_lt_sq, abs_of_nonneg hr]
+
+/-- `|a| > tol·√x ⇔ a² > tol²·x`  (tests `abs(d_1[0]) > tol*length_1`, `abs(d_1[1]) > tol*length_2`) -/
+theorem abs_gt_tol_sqrt_iff (a tol x : ℝ) (ht : 0 ≤ tol) (hx : 0 ≤ x) :
+    |a| > tol * Real.sqrt x ↔ a * a > tol * tol * x := by
+  have hr : 0 ≤ tol * Real.sqrt x := mul_nonneg ht (Real.sqrt_nonneg x)
+  have hsq : (tol * Real.sqrt x) ^ 2 = tol * tol * x := by
+    have h1 := Real.mul_self_sqrt hx
+    calc (tol * Real.sqrt x) ^ 2 = tol * tol * (Real.sqrt x * Real.sqrt x) := by ring
+      _ = tol * tol * x := by rw [h1]
+  show tol * Real.sqrt x < |a| ↔ tol * tol * x < a * a
+  rw [← hsq, show a * a = a ^ 2 by ring, sq_lt_sq, abs_of_nonneg hr]
+
+/-- `|a| < tol·max(√x, √y) ⇔ a² < tol²·max(x, y)`  (test "lines are colinear":
+    `abs(start_cross_line) < tol*max(length_1, length_2)`) -/
+theorem abs_lt_tol_max_sqrt_iff (a tol x y : ℝ) (ht : 0 ≤ tol) (hx : 0 ≤ x) (_hy : 0 ≤ y) :
+    |a| < tol * max (Real.sqrt x) (Real.sqrt y) ↔ a * a < tol * tol * max x y := by
+  have hmax : max (Real.sqrt x) (Real.sqrt y) = Real.sqrt (max x y) := by
+    rcases le_total x y with h | h
+    · rw [max_eq_right h, max_eq_right (Real.sqrt_le_sqrt h)]
+    · rw [max_eq_left h, max_eq_left (Real.sqrt_le_sqrt h)]
+  rw [hmax]
+  have := abs_lt_tol_sqrt_sqrt_iff a tol (max x y) 1 ht (le_trans hx (le_max_left _ _)) zero_le_one
+  simpa using this
+
+open Classical in
+/-- `segments_2d` with its comparisons written as in the code — with `length_i = np.sqrt(np.sum(d_i*d_i))`
+    as real square roots — on rational inputs.  Everything else as in `seg2d`. -/
+noncomputable def seg2dSqrt (tol : Rat) (a b c d : P2) : Res P2 :=
+  let d1x := b.x - a.x
+  let d1y := b.y - a.y
+  let d2x := d.x - c.x
+  let d2y := d.y - c.y
+  let length_1 : ℝ := Real.sqrt (((d1x * d1x + d1y * d1y : Rat)) : ℝ)
+  let length_2 : ℝ := Real.sqrt (((d2x * d2x + d2y * d2y : Rat)) : ℝ)
+  let dsx := c.x - a.x
+  let dsy := c.y - a.y
+  let discr := d1x * (-d2y) - d1y * (-d2x)
+  if |((discr : Rat) : ℝ)| < (tol : ℝ) * length_1 * length_2 then
+    let scl := dsx * d1y - dsy * d1x
+    if |((scl : Rat) : ℝ)| < (tol : ℝ) * max length_1 length_2 then
+      if |((d1x : Rat) : ℝ)| > (tol : ℝ) * length_1 then
+        overlap2 tol a d1x d1y ((c.x - a.x) / d1x) ((d.x - a.x) / d1x)
+      else if |((d1y : Rat) : ℝ)| > (tol : ℝ) * length_2 then
+        overlap2 tol a d1x d1y ((c.y - a.y) / d1y) ((d.y - a.y) / d1y)
+      else .err .value
+    else .none
+  else if discr = 0 then .err .assertion
+  else
+    let t1 := (dsx * (-d2y) - dsy * (-d2x)) / discr
+    let t2 := (d1x * dsy - d1y * dsx) / discr
+    if t1 ≥ -tol ∧ t1 ≤ 1 + tol ∧ t2 ≥ -tol ∧ t2 ≤ 1 + tol then
+      .point ⟨a.x + t1 * d1x, a.y + t1 * d1y⟩
+    else .none
+
+theorem sumsq_nonneg (u v : Rat) : (0:ℝ) ≤ ((u * u + v * v : Rat) : ℝ) := by
+  have : (0:Rat) ≤ u * u + v * v := by nlinarith [mul_self_nonneg u, mul_self_nonneg v]
+  exact_mod_cast this
+
+/-- the rational model in squared form IS the sqrt form of the code, for every rational input and `tol ≥ 0` -/
+theorem seg2dSqrt_eq (tol : Rat) (h0 : 0 ≤ tol) (a b c d : P2) : seg2dSqrt tol a b c d = seg2d tol a b c d := by
+  have ht : (0:ℝ) ≤ (tol : ℝ) := by exact_mod_cast h0
+  unfold seg2dSqrt seg2d
+  simp only []
+  have n1 := sumsq_nonneg (b.x - a.x) (b.y - a.y)
+  have n2 := sumsq_nonneg (d.x - c.x) (d.y - c.y)
+  refine if_congr ?_ (if_congr ?_ (if_congr ?_ rfl (if_congr ?_ rfl rfl)) rfl) rfl
+  · rw [abs_lt_tol_sqrt_sqrt_iff _ _ _ _ ht n1 n2]; exact_mod_cast Iff.rfl
+  · rw [abs_lt_tol_max_sqrt_iff _ _ _ _ ht n1 n2]; exact_mod_cast Iff.rfl
+  · rw [abs_gt_tol_sqrt_iff _ _ _ ht n1]; exact_mod_cast Iff.rfl
+  · rw [abs_gt_tol_sqrt_iff _ _ _ ht n2]; exact_mod_cast Iff.rfl
+
+/-! ## §10  The order of the two returned columns -/
+
+theorem col4_get (a b c d : P3) (ax : Ax) (i : Nat) :
+    (col4 a b c d i).get ax = col4 (a.get ax) (b.get ax) (c.get ax) (d.get ax) i := by
+  match i with
+  | 0 => rfl
+  | 1 => rfl
+  | 2 => rfl
+  | (n + 3) => rfl
+
+/-- 3-D convention: a returned segment is ascending in the working coordinate `ax` -/
+theorem overlap3_segment_order (tol : Rat) (a b c d p q : P3) (ax : Ax)
+    (hgap : ∀ i j : Nat,
+      rabs (col4 (a.get ax) (b.get ax) (c.get ax) (d.get ax) i - col4 (a.get ax) (b.get ax) (c.get ax) (d.get ax) j) < tol
+        ↔ col4 (a.get ax) (b.get ax) (c.get ax) (d.get ax) i = col4 (a.get ax) (b.get ax) (c.get ax) (d.get ax) j)
+    (h : overlap3 true tol a b c d ax = .segment p q) : p.get ax < q.get ax := by
+  unfold overlap3 at h
+  simp only [touchAsPoint, Bool.true_and, decide_eq_true_eq, hgap] at h
+  split_ifs at h with h1 h2 h3
+  have e := Res.segment.inj h
+  obtain ⟨m1, m2⟩ := argsortMid_spec _ _ _ _ h1 h2
+  rw [← e.1, ← e.2, col4_get, col4_get]
+  refine lt_of_le_of_ne ?_ h3
+  rw [m1, m2]
+  have hv : ¬ min (max (a.get ax) (b.get ax)) (max (c.get ax) (d.get ax)) < max (min (a.get ax) (b.get ax)) (min (c.get ax) (d.get ax)) :=
+    fun hh => by
+      rcases (disjoint_iff _ _ _ _).mpr hh with h' | h'
+      · exact h1 h'
+      · exact h2 h'
+  exact not_lt.mp hv
+
+theorem cross3d_not_segment (tol : Rat) (m : Dims) (a b c d p q : P3) : cross3d tol m a b c d ≠ .segment p q := by
+  unfold cross3d
+  simp only []
+  split_ifs <;> simp
+
+/-- a segment result of `par3d` comes from `overlap3` in the first coordinate with an extent, and the
+    two direction vectors have the same extent mask -/
+theorem par3d_segment (tol : Rat) (a b c d p q : P3) (h : par3d true tol a b c d = .segment p q) :
+    (∀ ax, decide (rabs ((⟨b.x - a.x, b.y - a.y, b.z - a.z⟩ : P3).get ax) > tol)
+         = decide (rabs ((⟨d.x - c.x, d.y - c.y, d.z - c.z⟩ : P3).get ax) > tol)) ∧
+    ∃ ax tail, [Ax.x, Ax.y, Ax.z].filter (fun ax => decide (rabs ((⟨b.x - a.x, b.y - a.y, b.z - a.z⟩ : P3).get ax) > tol)) = ax :: tail ∧
+      overlap3 true tol a b c d ax = .segment p q := by
+  unfold par3d at h
+  simp only [] at h
+  split_ifs at h with h1 h2 h3 h4 h5 h6
+  constructor
+  · intro ax
+    by_contra hne
+    apply h1
+    cases ax
+    · left; exact hne
+    · right; left; exact hne
+    · right; right; exact hne
+  · generalize hsel : List.filter (fun ax => decide (rabs ((⟨b.x - a.x, b.y - a.y, b.z - a.z⟩ : P3).get ax) > tol)) [Ax.x, Ax.y, Ax.z] = sel at h
+    match sel, h with
+    | ax :: tail, h => exact ⟨ax, tail, rfl, h⟩
+
+theorem seg3d_segment (tol : Rat) (a b c d p q : P3) (h : seg3d tol a b c d = .segment p q) :
+    par3d true tol a b c d = .segment p q := by
+  unfold seg3d seg3dWith at h
+  simp only [] at h
+  split_ifs at h
+  · exact h
+  · exact absurd h (cross3d_not_segment _ _ _ _ _ _ _ _)
+
+theorem rabs_sub_comm (x y : Rat) : rabs (x - y) = rabs (y - x) := by
+  rw [rabs_eq, rabs_eq, abs_sub_comm]
+
+/-- `same` + both results ascending in a common coordinate ⇒ equal, column order included -/
+theorem eq_of_same_of_order {r s : Res P3} (h : Res.same r s)
+    (hord : ∀ p q p' q', r = .segment p q → s = .segment p' q' → ∃ ax, p.get ax < q.get ax ∧ p'.get ax < q'.get ax) :
+    r = s := by
+  cases r <;> cases s <;> simp only [Res.same] at h
+  · rfl
+  · rw [h]
+  · rename_i p q p' q'
+    rcases h with ⟨h1, h2⟩ | ⟨h1, h2⟩
+    · rw [h1, h2]
+    · obtain ⟨ax, o1, o2⟩ := hord p q p' q' rfl rfl
+      rw [h1, h2] at o1
+      exact absurd o1 (not_lt.mpr (le_of_lt o2))
+  · rw [h]
+
+/-- two segment results of `seg3d` whose first segments have the same extent mask are ascending in
+    the same coordinate -/
+theorem seg3d_common_order (tol : Rat) (a b c d a' b' c' d' p q p' q' : P3)
+    (h : seg3d tol a b c d = .segment p q) (h' : seg3d tol a' b' c' d' = .segment p' q')
+    (hmask : ∀ ax, decide (rabs ((⟨b.x - a.x, b.y - a.y, b.z - a.z⟩ : P3).get ax) > tol)
+                 = decide (rabs ((⟨b'.x - a'.x, b'.y - a'.y, b'.z - a'.z⟩ : P3).get ax) > tol))
+    (g : ∀ ax, ∀ i j : Nat,
+      rabs (col4 (a.get ax) (b.get ax) (c.get ax) (d.get ax) i - col4 (a.get ax) (b.get ax) (c.get ax) (d.get ax) j) < tol
+        ↔ col4 (a.get ax) (b.get ax) (c.get ax) (d.get ax) i = col4 (a.get ax) (b.get ax) (c.get ax) (d.get ax) j)
+    (g' : ∀ ax, ∀ i j : Nat,
+      rabs (col4 (a'.get ax) (b'.get ax) (c'.get ax) (d'.get ax) i - col4 (a'.get ax) (b'.get ax) (c'.get ax) (d'.get ax) j) < tol
+        ↔ col4 (a'.get ax) (b'.get ax) (c'.get ax) (d'.get ax) i = col4 (a'.get ax) (b'.get ax) (c'.get ax) (d'.get ax) j) :
+    ∃ ax, p.get ax < q.get ax ∧ p'.get ax < q'.get ax := by
+  obtain ⟨-, ax, tail, hs, ho⟩ := par3d_segment tol a b c d p q (seg3d_segment tol a b c d p q h)
+  obtain ⟨-, ax', tail', hs', ho'⟩ := par3d_segment tol a' b' c' d' p' q' (seg3d_segment tol a' b' c' d' p' q' h')
+  have hf : (fun ax => decide (rabs ((⟨b.x - a.x, b.y - a.y, b.z - a.z⟩ : P3).get ax) > tol))
+      = (fun ax => decide (rabs ((⟨b'.x - a'.x, b'.y - a'.y, b'.z - a'.z⟩ : P3).get ax) > tol)) := funext hmask
+  rw [hf, hs'] at hs
+  have hax : ax' = ax := (List.cons.inj hs).1
+  subst hax
+  exact ⟨ax', overlap3_segment_order tol a b c d p q ax' (g ax') ho,
+    overlap3_segment_order tol a' b' c' d' p' q' ax' (g' ax') ho'⟩
+
+/-- every tolerance test on differences of integer coordinates is exact -/
+theorem gap_ofInt (tol : Rat) (h0 : 0 < tol) (h1 : tol ≤ 1) (ax ay az bx by' bz cx cy cz dx dy dz : Int) :
+    ∀ k, ∀ i j : Nat,
+      rabs (col4 ((P3.ofInt ax ay az).get k) ((P3.ofInt bx by' bz).get k) ((P3.ofInt cx cy cz).get k) ((P3.ofInt dx dy dz).get k) i
+          - col4 ((P3.ofInt ax ay az).get k) ((P3.ofInt bx by' bz).get k) ((P3.ofInt cx cy cz).get k) ((P3.ofInt dx dy dz).get k) j) < tol
+      ↔ col4 ((P3.ofInt ax ay az).get k) ((P3.ofInt bx by' bz).get k) ((P3.ofInt cx cy cz).get k) ((P3.ofInt dx dy dz).get k) i
+        = col4 ((P3.ofInt ax ay az).get k) ((P3.ofInt bx by' bz).get k) ((P3.ofInt cx cy cz).get k) ((P3.ofInt dx dy dz).get k) j := by
+  intro k i j
+  have : ∃ m : Int, col4 ((P3.ofInt ax ay az).get k) ((P3.ofInt bx by' bz).get k) ((P3.ofInt cx cy cz).get k)
+      ((P3.ofInt dx dy dz).get k) i - col4 ((P3.ofInt ax ay az).get k) ((P3.ofInt bx by' bz).get k)
+      ((P3.ofInt cx cy cz).get k) ((P3.ofInt dx dy dz).get k) j = m := by
+    cases k <;> simp only [P3.get, P3.ofInt]
+    · exact col4_diff_int _ _ _ _ (bx - ax) (cx - ax) (dx - cx) (by push_cast; ring) (by push_cast; ring) (by push_cast; ring) i j
+    · exact col4_diff_int _ _ _ _ (by' - ay) (cy - ay) (dy - cy) (by push_cast; ring) (by push_cast; ring) (by push_cast; ring) i j
+    · exact col4_diff_int _ _ _ _ (bz - az) (cz - az) (dz - cz) (by push_cast; ring) (by push_cast; ring) (by push_cast; ring) i j
+  obtain ⟨m, hm⟩ := this
+  rw [rabs_lt_iff_of_int _ m hm tol h0 h1, sub_eq_zero]
+
+/-- the extent mask of the second segment equals that of the first whenever a segment is returned -/
+theorem seg3d_mask_eq (tol : Rat) (a b c d p q : P3) (h : seg3d tol a b c d = .segment p q) :
+    ∀ ax, decide (rabs ((⟨b.x - a.x, b.y - a.y, b.z - a.z⟩ : P3).get ax) > tol)
+        = decide (rabs ((⟨d.x - c.x, d.y - c.y, d.z - c.z⟩ : P3).get ax) > tol) :=
+  (par3d_segment tol a b c d p q (seg3d_segment tol a b c d p q h)).1
 
 end PorepyVerif.C28
